@@ -324,6 +324,8 @@ def check_case(case):
     old = sys.getrecursionlimit()
     sys.setrecursionlimit(1000)
     try:
+        if "history" in case:
+            return run_history(case["limit"], case["nondeterministic"], case["query"], tuple(case["history"]))
         spec, limit, nd, query = case["doc"], case["limit"], case["nondeterministic"], case["query"]
         if case.get("sub"):
             tmp = Shard(PROPERTY)
@@ -354,6 +356,65 @@ def check_case(case):
         sys.setrecursionlimit(old)
 
 
+# ---- histories on ONE compiled query: the bound concerns each application, whatever happened to
+# the query object before (a run that raised, a find_one, an abandoned iterator)
+HIST_OPS = ["full_at_limit", "full_too_deep", "find_one_at_limit", "partial_1", "partial_3", "full_cyclic",
+            "full_shallow", "find_one_too_deep"]
+HIST_QUERIES = ["$..*", "$..a", "$[?@..a]", "$..[?@..a]"]
+
+
+def hist_doc(op, limit, wrap):
+    """-> (document, expected to complete?)   wrap = the query's filter looks one level down"""
+    n = limit
+    if op in ("full_too_deep", "find_one_too_deep"):
+        n = limit + 1
+    if op == "full_shallow":
+        n = 1
+    if op == "full_cyclic":
+        d = cyclic("two-cycle")
+        return ([d] if wrap else d), False
+    d = chain(n, "alt", "scalar")
+    return ([d, 0] if wrap else d), n <= limit
+
+
+def run_history(limit, nd, query, ops):
+    """-> None | violation; every application is judged like an application of a fresh query"""
+    cq = env(limit, nd).compile(query)
+    wrap = query.startswith("$[?")
+    for i, op in enumerate(ops):
+        doc, expect_ok = hist_doc(op, limit, wrap)
+        case = {"history": list(ops), "limit": limit, "nondeterministic": nd, "query": query}
+        with choice.controlled(modules()) as ctl:
+            ctl.chooser.start([])
+            if op.startswith("find_one"):
+                try:
+                    cq.find_one(doc)
+                except Exception:  # noqa: BLE001  (judged by the complete runs that follow)
+                    pass
+                continue
+            if op.startswith("partial"):
+                it = iter(cq.finditer(doc))
+                try:
+                    for _ in range(int(op[-1])):
+                        next(it)
+                except Exception:  # noqa: BLE001
+                    pass
+                del it
+                continue
+            r = one_run(cq, doc)
+            fresh = one_run(env(limit, nd).compile(query), doc)
+        if r[0] == "bad":
+            return violation("not-bounded", dict(case, step=i), "completes or raises JSONPathRecursionError", r[1], "crash")
+        if r[0] != fresh[0] or (r[0] == "ok" and sorted(map(repr, r[1])) != sorted(map(repr, fresh[1]))):
+            return violation("history-changes-the-bound", dict(case, step=i), {"fresh_query": fresh[0]},
+                             {"used_query": r[0]}, "history")
+        if (r[0] == "ok") != expect_ok:
+            return violation("raised-within-limit" if expect_ok else "completed-beyond-limit", dict(case, step=i),
+                             "completes" if expect_ok else "JSONPathRecursionError", r[0],
+                             "raised-within-limit" if expect_ok else "completed-beyond-limit")
+    return None
+
+
 def shards(tier):
     nmax = 6 if tier == "quick" else 7
     shapes = skeleton_shapes(nmax)
@@ -371,6 +432,9 @@ def shards(tier):
     out.append({"part": "dag", "tier": tier})
     out.append({"part": "instance", "tier": tier})
     out.append({"part": "infilter", "tier": tier})
+    for qi in range(len(HIST_QUERIES)):
+        for nd in (False, True):
+            out.append({"part": "history", "q": qi, "nd": nd, "tier": tier})
     for name in CYCLES + BRANCHING:
         for limit in ((1, 2, 3, 4) if name in BRANCHING else (1, 2, 3, 4, 5, 100)):
             out.append({"part": "cycle", "name": name, "limit": limit, "tier": tier})
@@ -443,6 +507,23 @@ def run_shard(desc):
                         for v in check_input({"kind": "cycle", "name": name}, limit, nd, "$..*", full_tree=(limit <= full_upto),
                                              sh=sh, dev=1, cap=3000, how="instance-after-compile"):
                             sh.violation(v)
+        elif desc["part"] == "history":
+            import itertools
+            query = HIST_QUERIES[desc["q"]]
+            for limit in (2, 3, 5) if tier == "quick" else (1, 2, 3, 4, 5, 8):
+                for k in (1, 2, 3):
+                    for ops in itertools.product(HIST_OPS, repeat=k):
+                        if not ops[-1].startswith("full"):
+                            continue  # a history is judged at its complete runs
+                        sh.states += k
+                        sh.transitions += k
+                        sh.traces += 1
+                        sh.evaluations += 1
+                        sh.nontrivial += 1
+                        v = run_history(limit, desc["nd"], query, ops)
+                        if v:
+                            sh.violation(v)
+            sh.sample({"history": ["partial_1", "full_too_deep", "full_at_limit"], "query": query}, limit=1)
         elif desc["part"] == "dag":
             for shape in ("deep", "wide", "empty"):
                 for limit in (3, 4, 5, 100):
